@@ -20,36 +20,45 @@ var kindFields = map[string]protoreflect.FieldDescriptor{}
 
 func init() {
 	type f struct {
-		name string
-		typ  descriptorpb.FieldDescriptorProto_Type
+		name     string
+		typ      descriptorpb.FieldDescriptorProto_Type
+		typeName string
 	}
 	fs := []f{
-		{"int32", descriptorpb.FieldDescriptorProto_TYPE_INT32},
-		{"sint32", descriptorpb.FieldDescriptorProto_TYPE_SINT32},
-		{"sfixed32", descriptorpb.FieldDescriptorProto_TYPE_SFIXED32},
-		{"uint32", descriptorpb.FieldDescriptorProto_TYPE_UINT32},
-		{"fixed32", descriptorpb.FieldDescriptorProto_TYPE_FIXED32},
-		{"int64", descriptorpb.FieldDescriptorProto_TYPE_INT64},
-		{"sint64", descriptorpb.FieldDescriptorProto_TYPE_SINT64},
-		{"sfixed64", descriptorpb.FieldDescriptorProto_TYPE_SFIXED64},
-		{"uint64", descriptorpb.FieldDescriptorProto_TYPE_UINT64},
-		{"fixed64", descriptorpb.FieldDescriptorProto_TYPE_FIXED64},
-		{"bool", descriptorpb.FieldDescriptorProto_TYPE_BOOL},
-		{"float", descriptorpb.FieldDescriptorProto_TYPE_FLOAT},
-		{"double", descriptorpb.FieldDescriptorProto_TYPE_DOUBLE},
-		{"string", descriptorpb.FieldDescriptorProto_TYPE_STRING},
-		{"bytes", descriptorpb.FieldDescriptorProto_TYPE_BYTES},
+		{"int32", descriptorpb.FieldDescriptorProto_TYPE_INT32, ""},
+		{"sint32", descriptorpb.FieldDescriptorProto_TYPE_SINT32, ""},
+		{"sfixed32", descriptorpb.FieldDescriptorProto_TYPE_SFIXED32, ""},
+		{"uint32", descriptorpb.FieldDescriptorProto_TYPE_UINT32, ""},
+		{"fixed32", descriptorpb.FieldDescriptorProto_TYPE_FIXED32, ""},
+		{"int64", descriptorpb.FieldDescriptorProto_TYPE_INT64, ""},
+		{"sint64", descriptorpb.FieldDescriptorProto_TYPE_SINT64, ""},
+		{"sfixed64", descriptorpb.FieldDescriptorProto_TYPE_SFIXED64, ""},
+		{"uint64", descriptorpb.FieldDescriptorProto_TYPE_UINT64, ""},
+		{"fixed64", descriptorpb.FieldDescriptorProto_TYPE_FIXED64, ""},
+		{"bool", descriptorpb.FieldDescriptorProto_TYPE_BOOL, ""},
+		{"float", descriptorpb.FieldDescriptorProto_TYPE_FLOAT, ""},
+		{"double", descriptorpb.FieldDescriptorProto_TYPE_DOUBLE, ""},
+		{"string", descriptorpb.FieldDescriptorProto_TYPE_STRING, ""},
+		{"bytes", descriptorpb.FieldDescriptorProto_TYPE_BYTES, ""},
+		{"timestamp", descriptorpb.FieldDescriptorProto_TYPE_MESSAGE, ".google.protobuf.Timestamp"},
+		{"duration", descriptorpb.FieldDescriptorProto_TYPE_MESSAGE, ".google.protobuf.Duration"},
+		{"fraction", descriptorpb.FieldDescriptorProto_TYPE_MESSAGE, ".tableau.Fraction"},
+		{"comparator", descriptorpb.FieldDescriptorProto_TYPE_MESSAGE, ".tableau.Comparator"},
 	}
 	msg := &descriptorpb.DescriptorProto{Name: proto.String("Kinds")}
 	for i, x := range fs {
-		msg.Field = append(msg.Field, &descriptorpb.FieldDescriptorProto{
+		fp := &descriptorpb.FieldDescriptorProto{
 			Name: proto.String("f_" + x.name), Number: proto.Int32(int32(i + 1)), Type: x.typ.Enum(),
 			Label: descriptorpb.FieldDescriptorProto_LABEL_OPTIONAL.Enum(),
-		})
+		}
+		if x.typeName != "" {
+			fp.TypeName = proto.String(x.typeName)
+		}
+		msg.Field = append(msg.Field, fp)
 	}
 	fdp := &descriptorpb.FileDescriptorProto{
 		Name: proto.String("verif_kinds.proto"), Package: proto.String("verifkinds"), Syntax: proto.String("proto3"),
-		Dependency:  []string{"tableau/protobuf/tableau.proto"},
+		Dependency:  []string{"tableau/protobuf/tableau.proto", "google/protobuf/timestamp.proto", "google/protobuf/duration.proto", "tableau/protobuf/wellknown.proto"},
 		MessageType: []*descriptorpb.DescriptorProto{msg},
 	}
 	fd, err := protodesc.NewFile(fdp, globalFilesResolver{})
